@@ -121,10 +121,15 @@ def main():
         cov["theorems"] = thms
         cov["checker_cmd"] = "cd coq && make -j16 %s (coqc 8.16.1, full .vo build) ; coqc audit (Print Assumptions per theorem)%s" % (
             props_target, " ; coqchk -o" if coqchk_out is not None else "")
-        axioms = sorted({a for axs in assumptions.values() for a in axs})
+        allax = sorted({a for axs in assumptions.values() for a in axs})
+        prims = [a for a in allax if a.startswith(("PrimFloat.", "PrimInt63.", "Uint63.")) and not a.endswith("_spec")]
+        axioms = [a for a in allax if a not in prims]
         cov["trusted_base"] = [
             "Coq 8.16.1 kernel incl. vm_compute (no native_compute)",
-            "axioms reported by Print Assumptions: " + (", ".join(axioms) if axioms else "none (closed under the global context)"),
+            "axioms reported by Print Assumptions (all declared by the standard library; none by this development): " +
+            (", ".join(axioms) if axioms else "none (closed under the global context)"),
+            "kernel primitives reported by Print Assumptions (primitive floats / 63-bit integers, not axioms): " +
+            (", ".join(prims) if prims else "none"),
             "tools/translate.py (constants/tables from the Rust sources into Gen/*.v)",
             "correspondence check: harness/ (Rust), tools/*.py, model evaluated by vm_compute on the same cases",
         ] + spec.get("trusted", [])
